@@ -143,7 +143,32 @@ class Plane(GeoBody):
         )
 
     def __hash__(self):
-        """return the hash of a Plane"""
+        """return the hash of a Plane
+
+        Equal planes have the same hash whatever point and whatever
+        (parallel) normal they were built from; the orientation of the
+        normal does not matter, see hash_with_normal.
+        """
+        n = self.n
+        # the normal of the point set is only defined up to its sign: make
+        # the first component that is not (nearly) zero positive
+        for c in n:
+            if abs(c) > get_eps():
+                if c < 0:
+                    n = -n
+                break
+        return hash(
+            (
+                "Plane",
+                round(n[0], get_sig_figures()),
+                round(n[1], get_sig_figures()),
+                round(n[2], get_sig_figures()),
+                round(n * self.p.pv(), get_sig_figures()),
+            )
+        )
+
+    def hash_with_normal(self):
+        """return the hash value considering the orientation of the normal"""
         return hash(
             (
                 "Plane",
